@@ -16,7 +16,7 @@ pub fn prop() -> Prop {
     Prop {
         id: "C16",
         level: "model_checking",
-        rule: "(a) histories: every ordered sequence of <= 2 (quick) / <= 3 (thorough) programs of a 28-program batch chosen to collide (same literals, names and strings in different positions, heap allocation everywhere, builtin and nested-call errors, output), evaluated one after the other on one thread of one process: every evaluation must give the outcome the program gives alone in a FRESH process; (b) schedules: for every unordered pair of a 10-program subset, two evaluations on real threads under a controlled scheduler that yields before every VM instruction and between the phases of eval; EVERY schedule with at most p preemptions is run to completion and each thread's outcome must equal its solo outcome; (c) configurations: the whole check, and a table of operator and arithmetic programs across the overflow boundaries, runs under two builds of the interpreter (release-like; debug assertions + overflow checks) and the (program, outcome) tables must be identical, with the solo outcomes always taken from the release build. States = schedules + histories completed; transitions = scheduling points executed",
+        rule: "(a) histories: every ordered sequence of <= 2 (quick) / <= 3 (thorough) programs of a 40-program batch chosen to collide (same literals, names and strings in different positions, values equal under == but not identical such as 0.0 and -0.0 or 1 and 1.0, heap allocation everywhere, builtin and nested-call errors, output), evaluated one after the other on one thread of one process: every evaluation must give the outcome the program gives alone in a FRESH process; (b) schedules: for every unordered pair of a 10-program subset, two evaluations on real threads under a controlled scheduler that yields before every VM instruction and between the phases of eval; EVERY schedule with at most p preemptions is run to completion and each thread's outcome must equal its solo outcome; (c) configurations: the whole check, and a table of operator and arithmetic programs across the overflow boundaries, runs under two builds of the interpreter (release-like; debug assertions + overflow checks) and the (program, outcome) tables must be identical, with the solo outcomes always taken from the release build. States = schedules + histories completed; transitions = scheduling points executed",
         assumptions: &[
             "(d) the executable's symbol table is scanned for writable statics / thread-locals of the interpreter crate; if there are none the instruction-granularity schedules are sufficient; if some appear, a free-running (sampling, labelled) complement on real parallel threads is added, because the exhaustive argument no longer covers races inside one instruction",
             "instruction granularity: accesses inside one VM instruction are not interleaved by this scheduler; unsynchronised shared memory touched within a single instruction is outside its reach (the crate has no static, thread_local, lock or atomic: grep-verified in DESIGN 8)",
@@ -57,6 +57,19 @@ pub const BATCH: &[&str] = &[
     "string(lengte(1))",
     "stel t = \"{} {}\"; print(t, t, 1); t",
     "1152921504606846975 + 1",
+    // values that are equal under some comparison but not identical (what a cache keyed too coarsely confuses)
+    "string(0.0)",
+    "string(-0.0)",
+    "print(0.0 * -1.0); print([0.0])",
+    "print(0.0); print([-0.0])",
+    "string(0.0 / 0.0)",
+    "string(-(0.0 / 0.0))",
+    "string(1) + string(1.0)",
+    "[1, 1.0, \"1\", ja]",
+    "stel abc = 1; abc",
+    "functie abc() { \"abc\" } abc()",
+    "string(100) + string(100.0) + string(100.5)",
+    "stel a = 1.0; stel b = 1; [a == b, a, b]",
 ];
 
 /// Indices into BATCH of the short programs used for the schedule exploration.
@@ -68,7 +81,7 @@ fn render(o: &ThreadOutcome) -> String {
 
 /// The outcome of BATCH[i] alone in a fresh process of the RELEASE build.
 fn fresh_process_solo(i: usize) -> Option<String> {
-    let exe = std::path::PathBuf::from("/verif/.target/release/nlmc");
+    let exe = std::env::var_os("NLMC_RELEASE").map(std::path::PathBuf::from).unwrap_or_else(|| std::path::PathBuf::from("/verif/.target/release/nlmc"));
     let out = std::process::Command::new(exe).arg("solo16").arg(i.to_string()).output().ok()?;
     if !out.status.success() {
         use std::os::unix::process::ExitStatusExt;
@@ -268,6 +281,9 @@ fn run(sh: &mut Shard) {
     // (a) histories
     let hlen = if tier == Tier::Quick { 2 } else { 3 };
     let n = BATCH.len();
+    // everything this worker has evaluated on this thread so far (a deviation may be due to an EARLIER
+    // history of the same worker: the replay file carries the whole sequence)
+    let mut log: Vec<usize> = Vec::new();
     for len in 1..=hlen {
         let total = (n as u64).pow(len as u32);
         for code in 0..total {
@@ -287,12 +303,14 @@ fn run(sh: &mut Shard) {
             sh.nontrivial(&(profile, "history", &idx));
             for (pos, i) in idx.iter().enumerate() {
                 let o = sched::solo(BATCH[*i], 1_000_000);
+                log.push(*i);
                 sh.count("transitions");
                 sh.outcome(&(BATCH[*i], render(&o)));
                 if render(&o) != solos[*i] {
                     sh.violation(
                         "history",
-                        json!({"profile": profile, "history": idx.iter().map(|i| BATCH[*i]).collect::<Vec<_>>(), "position": pos}),
+                        json!({"profile": profile, "history": idx.iter().map(|i| BATCH[*i]).collect::<Vec<_>>(), "position": pos,
+                               "evaluated_before_on_this_thread": log[..log.len() - 1 - pos].to_vec()}),
                         format!("evaluation {} of the history ({:?}) gave {} but alone in a fresh process it gives {}", pos + 1, BATCH[*i], render(&o), solos[*i]),
                     );
                     break;
@@ -461,6 +479,14 @@ fn replay(sh: &mut Shard, case: &Value) {
     sh.mine();
     if let Some(h) = case["history"].as_array() {
         let progs: Vec<String> = h.iter().filter_map(|x| x.as_str().map(|s| s.to_string())).collect();
+        if let Some(before) = case["evaluated_before_on_this_thread"].as_array() {
+            println!("re-evaluating the {} batch programs the worker had evaluated before this history", before.len());
+            for i in before.iter().filter_map(|x| x.as_u64()) {
+                if let Some(p) = BATCH.get(i as usize) {
+                    let _ = sched::solo(p, 1_000_000);
+                }
+            }
+        }
         for p in &progs {
             let o = sched::solo(p, 1_000_000);
             let i = BATCH.iter().position(|b| b == p);
